@@ -1,9 +1,9 @@
 """
-Correspondence probes for the three bookkeeping models (Lean: PGModel/Cache.lean, Inference.lean, Validate.lean):
+Correspondence probes for the bookkeeping models (Lean: PGModel/Cache.lean, Inference.lean, Validate.lean, Api.lean):
 random operation histories / requests are replayed on the REAL objects and on the model through the driver commands
-`cache`, `infer`, `validate`; answers are diffed. Used by props/c17.py, c19.py, c20.py (ctx.corr_break on mismatch).
+`cache`, `infer`, `validate`, `api`; answers are diffed. Used by props/c17.py, c19.py, c20.py (ctx.corr_break on mismatch).
 """
-import random, math
+import os, random, math
 from fractions import Fraction
 import numpy as np
 import pgcommon as C
@@ -340,6 +340,294 @@ def validate_request(ctx, rng):
         ctx.corr_break('validate', request=line, model=model, real=verdict)
 
 
+# ------------------------------------------------------------------------------------------ call layer of moment / accumulate
+def _api_tok(x):
+    return 'none' if x is None else C.rs(C.frac(x))
+
+
+def api_calls(ctx, rng):
+    """One random call of the REAL `moment(...)` / `accumulate(...)` of a real distribution object (`coal.tree_height`,
+    `coal.total_branch_length`, or the `Coalescent` itself) against the model `PGModel/Api.lean` (driver command `api`,
+    variant `c`, or the one named by VERIF_API_VARIANT).  Only the numerical RESULT of `_accumulate` is replaced, by the
+    driver's fake `t^len(rs) * prod_j (id(rs[j]) + 2)^(j+1)`: the patched class attribute first runs the tree's own
+    `_accumulate` (n = 3: a handful of 3-state matrix exponentials), so its argument checks act as they are in the tree under
+    test, and then returns the fake values.  `tree_height.t_max` is pre-set on the instance when no end time was given to
+    the `Coalescent` (no absorption-time search).  Times are dyadic rationals: the float arithmetic of the call layer is exact
+    up to the division by `len(permutations)`; values are compared at 1e-12."""
+    pg = C.import_phasegen()
+    import phasegen.distributions as D
+    import phasegen.rewards as R
+    pool = [R.TreeHeightReward(), R.TotalBranchLengthReward(), R.LineageReward(2), R.LineageReward(3), R.UnitReward()]
+    ident = {r: i for i, r in enumerate(pool)}
+    assert len(ident) == len(pool)
+    # ---- the distribution object
+    dstart = rng.choice([0, 0.0, 0, 0.5, 1.0, 2.0])
+    dend = rng.choice([None, None, None, dstart, dstart + 0.5, dstart + 4.0])
+    tmax = dend if dend is not None else rng.choice([4.0, 8.0])
+    coal = pg.Coalescent(n=3, start_time=dstart, end_time=dend, parallelize=False, pbar=False)
+    th = coal.tree_height
+    if dend is None:
+        th.__dict__['t_max'] = tmax          # the cached_property's slot
+    target = rng.choice(['th', 'tbl', 'coal'])
+    obj, dreward = {'th': (th, 0), 'tbl': (coal.total_branch_length, 1), 'coal': (coal, 0)}[target]
+    # ---- the call
+    k = rng.choice([0, 1, 1, 2, 2, 2, 3, 3, -1])
+    kk = float(k) if (k >= 0 and rng.random() < 0.1) else k         # `int(k)`
+    shape = rng.choice(['none', 'right', 'right', 'long', 'long', 'short'])
+    n_rew = {'none': None, 'right': max(k, 0), 'long': max(k, 0) + rng.choice([1, 1, 2]), 'short': max(k, 0) - 1}[shape]
+    if n_rew is not None and n_rew < 0:
+        n_rew = 0
+    rewards = None if n_rew is None else [rng.choice(pool) for _ in range(n_rew)]
+    if rewards is not None and rng.random() < 0.5:
+        rewards = tuple(rewards)
+    center, permute = rng.random() < 0.6, rng.random() < 0.6
+    what = rng.choice(['mom', 'mom', 'acc'])
+    tpool = [None, None, 0, 0.0, 0.25, 1.0, 3.0, -1.0]
+    start, end = rng.choice(tpool), rng.choice([None, None, 0, 0.0, 0.5, 2.0, 5.0, -1.0])
+    times = [rng.choice([0, 0.0, 0.5, 1.5, 4.0, 4.0, -0.5]) for _ in range(rng.choice([0, 1, 1, 2, 3]))]
+    rew_tok = 'none' if rewards is None else (','.join(str(ident[r]) for r in rewards) if len(rewards) else '-')
+    variant = os.environ.get('VERIF_API_VARIANT', 'c')
+    line = (f"api {variant} {what} k={int(k)} rewards={rew_tok} start={_api_tok(start)} end={_api_tok(end)} "
+            f"times={C.rlist(times)} center={int(center)} permute={int(permute)} dstart={C.rs(C.frac(dstart))} "
+            f"tmax={C.rs(C.frac(tmax))} dreward={dreward}")
+    # ---- real verdict, `_accumulate` answering with the fake values after running the tree's own code
+    orig = D.PhaseTypeDistribution.__dict__['_accumulate']      # the raw class-dict entry (restored as is)
+    def fake_accumulate(self, k, end_times, rewards=None):
+        orig(self, k, end_times, rewards)
+        t = np.array(end_times, dtype=float)
+        rs_ = (self.reward,) * k if rewards is None else tuple(rewards)
+        coef = 1.0
+        for j, r in enumerate(rs_):
+            coef *= float(ident[r] + 2) ** (j + 1)
+        return t ** len(rs_) * coef
+    D.PhaseTypeDistribution._accumulate = fake_accumulate
+    try:
+        with C.LogCapture():
+            try:
+                if what == 'mom':
+                    kw = {}
+                    if rewards is not None or rng.random() < 0.5:
+                        kw['rewards'] = rewards
+                    if start is not None or rng.random() < 0.5:
+                        kw['start_time'] = start
+                    if end is not None or rng.random() < 0.5:
+                        kw['end_time'] = end
+                    out = [float(obj.moment(kk, center=center, permute=permute, **kw))]
+                else:
+                    out = [float(x) for x in np.asarray(obj.accumulate(kk, list(times), rewards, center=center, permute=permute))]
+                real = ('ok', out)
+            except Exception as e:
+                real = ('err', type(e).__name__)
+    finally:
+        D.PhaseTypeDistribution._accumulate = orig
+    assert D.PhaseTypeDistribution.__dict__['_accumulate'] is orig
+    model = C.driver().ask(line)
+    head, _, rest = model.partition(' ')
+    if head == 'ok':
+        vals = [] if rest.strip() in ('-', '') else [Fraction(x) for x in rest.split(',')]
+        agree = real[0] == 'ok' and len(vals) == len(real[1]) and all(
+            abs(float(v) - x) <= 1e-12 * max(1.0, abs(float(v))) for v, x in zip(vals, real[1]))
+    else:
+        agree = real[0] == 'err' and real[1] == rest.strip()
+    ctx.count('api-calls'); ctx.count(f'api:{what}:{real[0] if real[0] == "ok" else real[1]}')
+    ctx.count(f'api-target:{target}')
+    if rewards is not None and len(rewards) != int(k):
+        ctx.count('api-length-mismatch:' + ('longer' if len(rewards) > int(k) else 'shorter'))
+    if what == 'mom' and end is not None and end == 0:
+        ctx.count('api-explicit-zero-end')
+    if what == 'mom' and start is not None and start == 0 and dstart > 0:
+        ctx.count('api-explicit-zero-start-over-positive-default')
+    if not agree:
+        ctx.corr_break('api-call', request=line, model=model, real=list(real), target=target,
+                       k=repr(kk), rewards=repr(rewards), start=repr(start), end=repr(end), times=repr(times),
+                       dstart=repr(dstart), dend=repr(dend))
+    return line
+# ------------------------------------------------------------------------------------------ configuration glue (C08)
+_CFG_POOL = ['pop_10', 'pop_9', 'pop_2', 'pop_0', 'pop_1', 'b', 'a', 'A', 'B', 'Zed', 'c', 'x1', 'X1', 'beta', 'Alpha', '_u']
+_CFG_SIZES = [Fraction(1, 4), Fraction(1, 2), Fraction(3, 4), Fraction(3, 2), 2, 3, 5, 7, Fraction(1, 3), Fraction(11, 10)]
+_CFG_RATES = [0, Fraction(1, 8), Fraction(1, 4), Fraction(1, 2), 1, Fraction(5, 4), 2, 3, Fraction(1, 3), Fraction(7, 10)]
+_CFG_TIMES = [0, Fraction(1, 4), Fraction(1, 2), 1, Fraction(3, 2), 2, Fraction(7, 2)]
+
+
+def _cfg_changes(rng, values, force_zero=False):
+    """a {time: value} dict with 1-3 change times in a random listing order"""
+    ts = rng.sample(_CFG_TIMES, rng.randint(1, 3))
+    if force_zero and 0 not in ts:
+        ts[0] = 0
+    return {float(t): float(rng.choice(values)) for t in ts}
+
+
+def config_glue(ctx, rng, variant=None):
+    """The glue between the user's containers and the tables the transitions use (Lean: PGModel/Config.lean, driver
+    command `config`): a REAL `Coalescent(n=…, demography=Demography(pop_sizes=…, migration_rates=…))` is built from
+    randomly named / ordered / shaped containers; the deme axis, the initial lineage vector, and - read back from the rate
+    matrix `S` of the lineage-counting state space after `update_epoch(get_epoch(t))` - the population size used for every
+    axis position and the migration rate used for every ordered pair of axis positions, and the axis position
+    `DemeReward(name)` resolves to, are compared with the model.  The real iteration order of the `set` of unsampled
+    populations is passed to the model as `setOrder`."""
+    import os
+    pg = C.import_phasegen()
+    from phasegen.rewards import DemeReward
+    variant = variant or os.environ.get('VERIF_CFG_VARIANT', 'c')
+    single = rng.random() < 0.12
+    if single:
+        # the scalar / list shapes: one population, implicitly named pop_0
+        cnt = rng.randint(2, 3)
+        n = rng.choice([cnt, [cnt], {'pop_0': cnt}])
+        size_shape = rng.choice(['scalar', 'flat', 'full', 'none'])
+        s0 = float(rng.choice(_CFG_SIZES))
+        pop_sizes = {'scalar': s0, 'flat': {'pop_0': s0}, 'full': {'pop_0': _cfg_changes(rng, _CFG_SIZES)}, 'none': None}[size_shape]
+        migration = None
+        mig_shape = 'none'
+    else:
+        k = rng.randint(2, 4 if rng.random() < 0.25 else 3)
+        use_list = rng.random() < 0.12
+        names = [f'pop_{i}' for i in range(k)] if use_list else rng.sample(_CFG_POOL, k)
+        # sample configuration: which names are listed, with how many lineages (total 2 or 3), in which order
+        total = rng.randint(2, 3)
+        if use_list:
+            cnts = [0] * k
+            for _ in range(total):
+                cnts[rng.randrange(k)] += 1
+            n = cnts if rng.random() < 0.5 else np.array(cnts)
+            listed = list(names)
+        else:
+            sampled = rng.sample(names, rng.randint(1, min(k, total)))
+            cnt = {p: 1 for p in sampled}
+            for _ in range(total - len(sampled)):
+                cnt[rng.choice(sampled)] += 1
+            zero_listed = [p for p in names if p not in sampled and rng.random() < 0.4]
+            listed = sampled + zero_listed
+            rng.shuffle(listed)
+            n = {p: cnt.get(p, 0) for p in listed}
+        # every name not listed in the sample configuration must be known to the demography
+        must = [p for p in names if p not in listed]
+        size_shape = rng.choice(['flat', 'full', 'full', 'none'])
+        mig_shape = rng.choice(['flat', 'full', 'full', 'none'])
+        pairs = [(p, q) for p in names for q in names if p != q]
+        mig_pairs = rng.sample(pairs, rng.randint(1, len(pairs))) if mig_shape != 'none' else []
+        in_mig = {p for pq in mig_pairs for p in pq}
+        size_names = [p for p in names if rng.random() < 0.7] if size_shape != 'none' else []
+        missing = [p for p in must if p not in in_mig and p not in size_names]
+        if missing and size_shape == 'none':
+            size_shape = rng.choice(['flat', 'full'])
+        size_names = size_names + missing
+        if size_shape != 'none' and not size_names:
+            size_names = [rng.choice(names)]
+        rng.shuffle(size_names)
+        if size_shape == 'flat':
+            pop_sizes = {p: float(rng.choice(_CFG_SIZES)) for p in size_names}
+        elif size_shape == 'full':
+            pop_sizes = {p: _cfg_changes(rng, _CFG_SIZES) for p in size_names}
+        else:
+            pop_sizes = None
+        if mig_shape == 'flat':
+            migration = {pq: float(rng.choice(_CFG_RATES)) for pq in mig_pairs}
+        elif mig_shape == 'full':
+            migration = {pq: _cfg_changes(rng, _CFG_RATES) for pq in mig_pairs}
+        else:
+            migration = None
+    n_arg = n.copy() if isinstance(n, (dict, list, np.ndarray)) else n
+    coal = pg.Coalescent(n=n_arg, demography=pg.Demography(pop_sizes=pop_sizes, migration_rates=migration))
+    axis = list(coal.lineage_config.pop_names)
+    init = [int(x) for x in coal.lineage_config.lineages]
+    D = len(axis)
+    # --- request
+    if isinstance(n, dict):
+        n_tok, n_len = (','.join(f'{p}={c}' for p, c in n.items()) or '-'), len(n)
+    elif isinstance(n, (list, np.ndarray)):
+        n_tok, n_len = 'list:' + ','.join(str(int(c)) for c in n), len(n)
+    else:
+        n_tok, n_len = f'scalar:{n}', 1
+    def ch_tok(ch):
+        return ';'.join(f'{C.rs(t)}:{C.rs(v)}' for t, v in ch.items())
+    if pop_sizes is None:
+        s_tok = '-'
+    elif not isinstance(pop_sizes, dict):
+        s_tok = f'scalar:{C.rs(pop_sizes)}'
+    elif size_shape == 'flat':
+        s_tok = 'flat:' + ','.join(f'{p}={C.rs(v)}' for p, v in pop_sizes.items())
+    else:
+        s_tok = '|'.join(f'{p}@{ch_tok(ch)}' for p, ch in pop_sizes.items())
+    if migration is None:
+        m_tok = '-'
+    elif mig_shape == 'flat':
+        m_tok = 'flat:' + ','.join(f'{p}>{q}={C.rs(v)}' for (p, q), v in migration.items())
+    else:
+        m_tok = '|'.join(f'{p}>{q}@{ch_tok(ch)}' for (p, q), ch in migration.items())
+    set_order = axis[n_len:]
+    so_tok = ','.join(set_order) if set_order else '-'
+    ctx.count('config-cases'); ctx.count(f'config:sizes-{size_shape}'); ctx.count(f'config:mig-{mig_shape}')
+    ctx.count(f'config:n-{type(n).__name__}')
+    if axis != sorted(axis):
+        ctx.count('config:axis-not-sorted')
+    if len(set_order) >= 2:
+        ctx.count('config:two-or-more-appended')
+        if set_order != sorted(set_order):
+            ctx.count('config:set-order-not-sorted')
+    if isinstance(n, dict) and any(c == 0 for c in n.values()):
+        ctx.count('config:unsampled-listed-with-0')
+    if set_order:
+        ctx.count('config:unsampled-omitted')
+    # --- the real tables, read back from the rate matrix
+    ss = coal.lineage_counting_state_space
+    L = np.array(ss.lineages)[:, 0, :, 0]
+    def idx(vec):
+        hit = np.where((L == np.array(vec)).all(axis=1))[0]
+        assert len(hit) == 1, (vec, hit)
+        return int(hit[0])
+    def unit(d, m=1):
+        v = [0] * D; v[d] = m; return v
+    one = [idx(unit(d)) for d in range(D)]
+    two = [idx(unit(d, 2)) for d in range(D)]
+    # DemeReward(name): the axis position whose single-lineage state has reward 1
+    deme_real = []
+    for p in axis:
+        r = np.array(DemeReward(p)._get(ss), dtype=float)
+        hit = [d for d in range(D) if r[one[d]] == 1.0]
+        deme_real.append(hit[0] if len(hit) == 1 else -1)
+    times = sorted({Fraction(0)} | {rng.choice(_CFG_TIMES) for _ in range(2)} | {rng.choice(_CFG_TIMES) + Fraction(1, 8) for _ in range(2)})
+    info = dict(n=n, pop_sizes=pop_sizes, migration_rates={f'{p}>{q}': v for (p, q), v in (migration or {}).items()}, axis=axis)
+    for t in times:
+        line = f'config {variant} {n_tok} {s_tok} {m_tok} {so_tok} {C.rs(t)}'
+        try:
+            ans = C.driver().ask(line)
+        except RuntimeError as e:
+            ctx.corr_break('config-glue', what='model rejects the real set order / request', request=line, error=str(e), **info)
+            return
+        f = dict(tok.split('=', 1) for tok in ans.split(' '))
+        m_axis = f['axis'].split(',')
+        m_init = [int(x) for x in f['init'].split(',')]
+        m_sizes = [Fraction(x) for x in f['sizes'].split(',')]
+        m_mig = [[Fraction(x) for x in row.split(',')] for row in f['mig'].split(';')]
+        m_deme = [int(x) for x in f['deme'].split(',')]
+        ss.update_epoch(coal.demography.get_epoch(float(t)))
+        S = np.array(ss.S, dtype=float)
+        bad = []
+        if m_axis != axis:
+            bad.append(('axis', m_axis, axis))
+        if m_init != init:
+            bad.append(('init', m_init, init))
+        if m_deme != deme_real:
+            bad.append(('deme', m_deme, deme_real))
+        if not bad:
+            for d in range(D):
+                # coalescence of the two lineages in deme d: Kingman rate 1 / time scale, time scale = population size
+                real, want = float(S[two[d], one[d]]), 1.0 / float(m_sizes[d])
+                if not C.close(real, want, 1e-12):
+                    bad.append(('size', d, axis[d], f'1/{1.0 / real if real else None}', str(m_sizes[d])))
+                for e in range(D):
+                    if e != d:
+                        real, want = float(S[one[d], one[e]]), float(m_mig[d][e])
+                        if not C.close(real, want, 1e-12):
+                            bad.append(('mig', d, e, axis[d], axis[e], real, str(m_mig[d][e])))
+        ctx.count('config-queries')
+        if bad:
+            ctx.corr_break('config-glue', request=line, t=str(t), mismatches=bad[:6], model=ans, **info)
+            return
+    return info
+
+
 # ------------------------------------------------------------------------------------------ pmap entry points
 def one_cache(ctx, i):
     rng = random.Random(f'{ctx.seed}-corr-cache-{i}')
@@ -362,3 +650,18 @@ def one_validate(ctx, i):
     for _ in range(40):
         validate_request(ctx, rng)
     ctx.case(dict(kind='validate-requests', batch=i), f'validate-{i}')
+
+
+def one_api(ctx, i):
+    rng = random.Random(f'{ctx.seed}-corr-api-{i}')
+    for _ in range(60):
+        line = api_calls(ctx, rng)
+    ctx.case(dict(kind='api-calls', batch=i, last=line), f'api-{i}')
+
+
+def one_config(ctx, i):
+    rng = random.Random(f'{ctx.seed}-corr-config-{i}')
+    info = None
+    for _ in range(12):
+        info = config_glue(ctx, rng) or info
+    ctx.case(dict(kind='config-glue', batch=i, last=info), f'config-{i}')
